@@ -47,6 +47,10 @@ fn continuation(ctx: &mut Ctx, m: &Message) -> Vec<u8> {
 impl Monitor for M {
     fn case(&mut self, ctx: &mut Ctx) {
         let light = ctx.light();
+        if super::huge::wanted(ctx) {
+            // "nothing that follows the message influences the result": 4 GiB of it
+            super::huge::message_at_start_of_4gib_slice(ctx);
+        }
         let (m, sys_label) = if ctx.index % 4 == 0 {
             let (m, l) = gen_systematic(&mut ctx.rng, (ctx.index / 4) % SYS_PERIOD);
             (m, Some(l))
